@@ -63,6 +63,7 @@ fn measured(input: &[u8]) -> (Obs, u64) {
 
 struct Runner {
     out: Out,
+    marker: std::path::PathBuf,
 }
 
 impl Runner {
@@ -71,6 +72,10 @@ impl Runner {
         if !self.out.wants(idx) {
             self.out.skip();
             return;
+        }
+        if what != "exhaustive" {
+            let shown = if input.len() > 200 { format!("{}... ({} bytes)", show(&input[..200]), input.len()) } else { show(input) };
+            let _ = std::fs::write(&self.marker, format!("{}\t{} input=\"{}\"", idx, what, shown));
         }
         let (o, a) = measured(input);
         let human = format!("{} input=\"{}\" -> {} alloc={}", what, show(input), show_obs(&o), a);
@@ -114,8 +119,55 @@ impl Runner {
     }
 }
 
+/// The decoder under test may kill the whole process (stack overflow on deep nesting, a
+/// failed giant allocation).  The cases therefore run in a child process that records which
+/// case it is about to run; if the child dies the parent reports that case as the failure.
+fn supervise(args: &Args) -> bool {
+    if std::env::var("VERIF_C21_CHILD").is_ok() {
+        return false;
+    }
+    let marker = args.out.join("current_case.txt");
+    let _ = std::fs::remove_file(&marker);
+    let exe = std::env::current_exe().expect("current_exe");
+    let status = std::process::Command::new(exe)
+        .args(std::env::args().skip(1))
+        .env("VERIF_C21_CHILD", "1")
+        .status()
+        .expect("spawn child");
+    if status.success() {
+        return true;
+    }
+    let cur = std::fs::read_to_string(&marker).unwrap_or_default();
+    let (idx, human) = match cur.split_once('\t') {
+        Some((i, h)) => (i.parse::<u64>().unwrap_or(0), h.to_string()),
+        None => (0, "unknown case (the child died before its first recorded case)".to_string()),
+    };
+    let j = serde_json::json!({
+        "evaluations": idx + 1,
+        "distinct_nontrivial": idx + 1,
+        "rule": "run aborted: the decoder killed the process",
+        "samples": [human.clone()],
+        "distribution": {},
+        "predicate_failures": [{
+            "index": idx,
+            "case": human,
+            "detail": format!("the process died ({}) while decoding this input: a stack overflow or a failed \
+                               allocation inside RespValue::decode takes the whole server down", status),
+            "known_class": serde_json::Value::Null,
+        }],
+        "known": [],
+        "shards": 0,
+        "notes": ["child process died; cases after the failing one were not run"],
+    });
+    std::fs::write(args.out.join("summary.json"), serde_json::to_string_pretty(&j).unwrap()).expect("summary");
+    true
+}
+
 fn main() {
     let args = parse_args();
+    if supervise(&args) {
+        return;
+    }
     quiet_panics();
     let shard = if args.thorough { 6000 } else { 1500 };
     let out = Out::new(&args, "From Verif Require Import Resp.", "Resp.case", "Resp.check_case", shard);
@@ -129,7 +181,7 @@ fn main() {
 }
 
 fn run(args: Args, out: Out) {
-    let mut rn = Runner { out };
+    let mut rn = Runner { out, marker: args.out.join("current_case.txt") };
     rn.out.rule = "exhaustive: every byte string of length <= 4 (quick) / <= 5 (thorough) over the 14 symbols \
                    + - : $ * _ 0 1 9 CR LF a \" space; mutation: valid frames (values, commands, inline commands) \
                    with 1-3 byte-level mutations and hostile lengths (-2, 2^64-1, 2^63, 512 MiB +- 1, overlong \
